@@ -812,6 +812,11 @@ func (r *run) judge() {
 					served = true
 				}
 			}
+			if r.sc.Latency > 0 && !r.svc.IgnoreCtx {
+				// a slow service that honours the request's context: the answer comes long after every caller
+				// has given up, so a request that is still answered outlived all the callers it was sent for
+				served = false
+			}
 			if _, ok := d[l.name]; ok && !declared && !served {
 				r.fail("C16", "failed-lookup-installed", "every LookupSecret(%q) failed and the service never answered a request for it successfully, yet the store holds the secret", l.name)
 			}
